@@ -300,6 +300,10 @@ def main():
     # 3. correspondence
     rc, out = build_coq("Check/%s.vo" % prop, 1500)
     check_ok = rc == 0
+    for a in cfg.get("also_streams", []):
+        if check_ok:
+            rc, out = build_coq("Check/%s.vo" % a["prop"], 1500)
+            check_ok = rc == 0
     fallback = False
     if not check_ok:
         broken.append(dict({"kind": "broken-correspondence", "detail": "model does not build"}, **first_error(out)))
@@ -334,8 +338,14 @@ def main():
             extra_env = dict(ENV, VERIF_RUNDIR=rundir)
             if touched:
                 extra_env["VERIF_ESCALATED"] = "1"
-            for sd, label in [(seed, v)] + [(es, "%s_s%d" % (v, i + 2)) for i, es in enumerate(extra_seeds)]:
-                rc, out = sh([binp, prop, tier, str(sd), rundir, label], cwd=ROOT, timeout=3000, env=extra_env)
+            runs = [(prop, seed, v, {})] + [(prop, es, "%s_s%d" % (v, i + 2), {}) for i, es in enumerate(extra_seeds)]
+            # further streams: the part of ANOTHER property's correspondence that this property's statement also
+            # covers (its cases are judged by that property's Check file); label = <variant>__<Cyy>
+            for a in cfg.get("also_streams", []):
+                if v in a.get("variants", variants):
+                    runs.append((a["prop"], seed, "%s__%s" % (v, a["prop"]), {"VERIF_PART": a.get("part", "")}))
+            for sprop, sd, label, env_add in runs:
+                rc, out = sh([binp, sprop, tier, str(sd), rundir, label], cwd=ROOT, timeout=3000, env=dict(extra_env, **env_add))
                 if rc != 0:
                     harness_ok = False
                     sig = "signal %d" % (-rc) if rc < 0 else "exit %d" % rc
@@ -480,14 +490,22 @@ def do_replay(prop, cfg, path):
         return
     label, cid, seed, tier = d["variant"], d["id"], d["seed"], d["tier"]
     v = label
-    mm = re.match(r"(.*)_s(\d+)$", label)
+    env_add = {}
+    ma = re.match(r"(.*)__(C\d+)$", label)
+    if ma:   # a stream borrowed from another property's correspondence
+        v, sprop = ma.group(1), ma.group(2)
+        for a in cfg.get("also_streams", []):
+            if a["prop"] == sprop:
+                env_add = {"VERIF_PART": a.get("part", "")}
+        prop = sprop
+    mm = re.match(r"(.*)_s(\d+)$", v)
     if mm:   # an escalated run: same build variant, later random stream
         v, seed = mm.group(1), seed + int(mm.group(2)) - 1
     rc, out, binp = build_harness(v, hooks=cfg.get("hooks", True))
     rundir = os.path.join(BUILD, "replay", prop)
     shutil.rmtree(rundir, ignore_errors=True)
     os.makedirs(rundir)
-    sh([binp, prop, tier, str(seed), rundir, label], cwd=ROOT, timeout=3000, env=dict(ENV, VERIF_RUNDIR=rundir))
+    sh([binp, prop, tier, str(seed), rundir, label], cwd=ROOT, timeout=3000, env=dict(ENV, VERIF_RUNDIR=rundir, **env_add))
     term = None
     for p in glob.glob(os.path.join(rundir, "cases_%s_*.v" % label)):
         for line in open(p):
